@@ -17,7 +17,7 @@ EXHAUSTIVE = {"quick": True, "thorough": True}
 RULE = (
     "all subsets of size <=3 (quick) / <=5 (thorough) of binding sites {context, page argument, body <% %> "
     "assignment, def argument, enclosing-def local, loop target, module level, imported def, builtin} (9 sites, "
-    "'nowhere' = empty set) x read sites {body, top-level def, nested def, anonymous block, named block, call "
+    "'nowhere' = empty set) x read sites {body, top-level def, top-level def called from a call body, nested def, anonymous block, named block, call "
     "body, control line, tag attribute expression, filter position} x strict_undefined on/off x layouts, "
     "exhaustively; combinations whose outcome the statement leaves open are counted as not asserted. reserved "
     "names: 4 names x 5 render entry points and x 8 binding forms. distinct = (sites, read site, strict, layout); "
@@ -35,7 +35,7 @@ REQUIRED_COUNTERS = ["resolutions_checked", "undefined_checked", "strict_nameerr
 _st = {}
 
 SITES = ["ctx", "page", "body", "defarg", "encl", "loop", "mod", "nsimport", "builtin"]
-READS = ["body", "def", "nested", "anonblock", "namedblock", "callbody", "ctrl", "attr", "filter"]
+READS = ["body", "def", "defcb", "nested", "anonblock", "namedblock", "callbody", "ctrl", "attr", "filter"]
 SHOW = (
     "<%!\n"
     "def show(v):\n"
@@ -59,7 +59,7 @@ def setup_worker():
 
 def applicable(sites, read):
     s = set(sites)
-    if "defarg" in s and read not in ("def", "nested"):
+    if "defarg" in s and read not in ("def", "defcb", "nested"):
         return False
     if "encl" in s and read != "nested":
         return False
@@ -90,7 +90,8 @@ def expected(sites, read, name):
         if "loop" in s:
             order.append("loop")
         order += [k for k in ("mod", "nsimport", "ctx", "builtin") if k in s]
-    elif read == "def":
+    elif read in ("def", "defcb"):
+        # defcb: the def is called by name from inside a <%call> body written in the template body
         if "loop" in s:
             order.append("loop")  # the loop is written inside the def/block
         if "defarg" in s:
@@ -138,7 +139,7 @@ def build(sites, read, name, layout):
     if "body" in s:
         body.append("<%% %s = 'body:%s' %%>" % (name, name))
     rd = "${show(%s)}" % name
-    inner_loop = "loop" in s and read in ("def", "nested", "namedblock", "anonblock")
+    inner_loop = "loop" in s and read in ("def", "defcb", "nested", "namedblock", "anonblock")
 
     def wrap_loop(text):
         return "%% for %s in ['loop:%s']:%s%s%s%% endfor%s" % (name, name, nl, text, nl, nl)
@@ -162,6 +163,8 @@ def build(sites, read, name, layout):
         core = '<%%block name="blk">%s</%%block>' % maybe("[" + rd + "]", inner_loop)
     elif read == "def":
         core = "${rd()}"
+    elif read == "defcb":
+        core = '<%call expr="wrap()">${rd()}</%call>'
     elif read == "nested":
         core = "${outer()}"
     if "loop" in s and not inner_loop:
@@ -174,7 +177,7 @@ def build(sites, read, name, layout):
     defs.append('<%def name="wrap()">${caller.body()}</%def>')
     defs.append("<%!\ndef mkf(v):\n    return lambda s: show(v)\n%>")
     arg = "%s='defarg:%s'" % (name, name) if "defarg" in s else ""
-    if read == "def":
+    if read in ("def", "defcb"):
         defs.append('<%%def name="rd(%s)">%s</%%def>' % (arg, maybe("[" + rd + "]", inner_loop)))
     if read == "nested":
         encl = "<%% %s = 'encl:%s' %%>" % (name, name) if "encl" in s else ""
